@@ -99,7 +99,7 @@ def trace_validation(ctx, cov):
 
 def run(ctx):
     if ctx.quick:
-        plan = [("mc/SymRes_c03_quick.cfg", 900, 4), ("mc/SymRes_c03_roots.cfg", 900, 3)]
+        plan = [("mc/SymRes_c03_quick.cfg", 900, 4), ("mc/SymRes_c03_roots.cfg", 900, 2)]
     else:
         plan = [("mc/SymRes_c03_quick.cfg", 900, 1), ("mc/SymRes_c03_roots.cfg", 900, 1),
                 ("mc/SymRes_c03_weak.cfg", 2400, 8), ("mc/SymRes_c03_chain.cfg", 1200, 3)]
